@@ -523,3 +523,57 @@ def check_C15(tier, seed):
                         assumptions=["sequential consistency; release/acquire orderings of the C code are not explored"])
     finally:
         c.close()
+
+
+def check_C19(tier, seed):
+    md, k = (5, 6) if tier == "quick" else (8, 12)
+    runs = [{"driver": "topodrv", "args": lambda tr: [tr, md, k], "spec": "TopologyTrace.tla", "cfg": "TopologyTrace.cfg", "label": "topo",
+             "timeout": 300, "tlc_timeout": 2400}]
+    return _driver_check("C19", tier, seed, runs, exhaustive=True,
+                         rule="all eight geometries; grids with width and height 1..%d (1xN, Nx1, 1x1 included), rings/star/mesh with 1..%d regions, graphs with every "
+                              "link set over 2 and 3 regions; every source region, all eight fixed directions, %d random directions from consecutive generator "
+                              "states, and the purity test (generator state restored after calls on behalf of another LP); one validated line per source region"
+                              % (md, 2 * md, k),
+                         assumptions=["concurrent use by several threads is represented by interleaved calls on behalf of other LPs between two calls with the same generator state"])
+
+
+def check_C18(tier, seed):
+    """bit-level conversion of Random(), range contracts, generator isolation: TLC on traces of the real library over crafted and
+    sequential generator states; the same driver re-executed under UBSan (shift amounts, overflows)"""
+    t0 = time.time()
+    nseq = 150 if tier == "quick" else 1500
+    nseeds = 4 if tier == "quick" else 24
+    runs = [{"driver": "randdrv", "args": (lambda sd: (lambda tr: [tr, sd, nseq]))(seed * 100 + i), "spec": "RandomTrace.tla", "cfg": "RandomTrace.cfg",
+             "label": "rand%d" % i, "timeout": 120, "tlc_timeout": 2400} for i in range(nseeds)]
+    mc = [("RandomBitsMC.tla", "RandomBitsMC.cfg", "every raw output of a 12-bit word: value in [0,1); the shift is undefined exactly for the word 0..01",
+           {"workers": 2, "timeout": 900})]
+    # UBSan re-execution of the driver: a sanitizer report is a violation (undefined shift, overflow)
+    scr = vlib.scratch()
+    san_note = {}
+    extra_viol = None
+    try:
+        abdir = vlib.build(os.path.join(scr, "build_asan"), "asan")
+        rc, out = vlib.sh([os.path.join(abdir, "randdrv"), os.path.join(scr, "r.ndjson"), str(seed), str(nseq)], timeout=300,
+                          env={"ASAN_OPTIONS": "detect_leaks=0", "UBSAN_OPTIONS": "print_stacktrace=0:halt_on_error=0"})
+        errs = sorted(set(x.strip() for x in out.split("\n") if "runtime error:" in x or "ERROR: AddressSanitizer" in x))
+        san_note = {"sanitizer_reports": errs[:5], "sanitizer_rc": rc}
+        if errs:
+            extra_viol = errs[0]
+    finally:
+        shutil.rmtree(scr, ignore_errors=True)
+    rcode = _driver_check("C18", tier, seed, runs, mc=mc, extra_cov=dict(san_note, explanation=(
+        "TLC decides: IEEE bits returned by Random() equal the RandomBits conversion for 0, 1, all ones, every 2^k and its neighbours and mantissa "
+        "boundaries (crafted generator states) and for sequential states; range contracts of RandomRange/RandomRangeNonUniform/Zipf, finiteness and "
+        "sign of Expent/Gamma/Normal on crafted extremes and sequential states; only the caller's generator advances. Numeric accuracy and "
+        "distribution shape are outside this technique (DESIGN.md section 7). Undefined behaviour is watched by UBSan on the same driver.")),
+        level="other",
+        rule="7 class representatives per leading-zero class (449 crafted raw outputs) + sequential states x seeds; one validated line per library call",
+        assumptions=["documented argument domain taken from the repository's own functional tests: 0 <= min <= max, x >= 0",
+                     "not all 2^64 raw outputs: class representatives of every leading-zero class and boundary mantissas"])
+    if extra_viol and rcode == 0:
+        os.makedirs(os.path.join(vlib.VERIF, "replays", "C18"), exist_ok=True)
+        rp = os.path.join(vlib.VERIF, "replays", "C18", "ubsan.txt")
+        open(rp, "w").write(extra_viol + "\n")
+        print("VIOLATION property=C18 replay=%s  (undefined behaviour in the numerical library on a crafted generator state: %s)" % (rp, extra_viol[:300]))
+        return 1
+    return rcode
